@@ -529,3 +529,8 @@ func vh_C08_L7_shutdown_chunk_acknowledges_partially_reliable_data() {
 	vassert(vIsShut(a) && vIsShut(b), "both sides end closed: data given up on does not keep the shutdown from completing")
 	vcover("end")
 }
+
+// C08.L8: Shutdown called while the writer is inside the transport is acted upon at once (= C20.L10).
+func vh_C08_L8_shutdown_during_a_transport_write_is_served() {
+	vh_C20_L10_call_during_a_transport_write_is_served()
+}
